@@ -2043,6 +2043,32 @@ def _quiet():
     warnings.simplefilter('ignore', FutureWarning)  # re: "possible nested set"
 
 
+# Family 'sep' (structured, not a plain alphabet product): every pattern
+# construct at every position of a path that may hold the '/' separator.
+# Patterns '/' + prefix + construct + suffix; paths: EVERY text '/' + t with t
+# over 'ab/' of length 1..4, valid address or not ('/a/', '//b': the part-wise
+# rule of OSC 1.0 still decides - the parts are the texts between the
+# separators and a construct matches inside one part only; pattern texts with
+# empty parts stay don't-cares).  'c' never occurs in a path, so '[!c]' is
+# the class that accepts every name character.
+SEP_CONSTRUCTS = ['?', '*', '[b]', '[ab]', '[a-b]', '[!b]', '[!a]', '[!c]',
+                  '[!ab]', '[!a-b]', '{a,b}', '{a,ab}', '**', '?*', '*?',
+                  '??', '[!c][!c]', '[!c]?', '?[!c]', '[!c]*']
+
+
+def sep_patterns():
+    pre = [''.join(t) for n in range(3) for t in itertools.product('ab',
+                                                                   repeat=n)]
+    suf = [''.join(t) for n in range(3) for t in itertools.product('ab/',
+                                                                   repeat=n)]
+    return ['/' + p + c + x for p in pre for c in SEP_CONSTRUCTS for x in suf]
+
+
+def sep_paths():
+    return ['/' + ''.join(t) for n in range(1, 5)
+            for t in itertools.product('ab/', repeat=n)]
+
+
 def pattern_work(job):
     """job: {'fam', 'plen', 'alen', 'shard', 'of'} and optionally 'slice' /
     'slice_of': additionally the patterns of length plen + 1 whose index
@@ -2050,12 +2076,21 @@ def pattern_work(job):
     _quiet()
     acc = progenum.Acc()
     lib = _matcher()
-    palpha, aalpha = PFAMILIES[job.get('fam', 'core')][:2]
-    addrs = addresses(job['alen'], aalpha)
+    sep = job.get('fam') == 'sep'
+    if sep:
+        palpha, addrs = None, sep_paths()
+    else:
+        palpha, aalpha = PFAMILIES[job.get('fam', 'core')][:2]
+        addrs = addresses(job['alen'], aalpha)
     pairs = 0
     best = {}
 
     def todo():
+        if sep:
+            for idx, p in enumerate(sep_patterns()):
+                if idx % job['of'] == job['shard']:
+                    yield p
+            return
         idx = 0
         for p in patterns(job['plen'], palpha):
             if idx % job['of'] == job['shard']:
@@ -2546,7 +2581,9 @@ def main(ctx):
         '(core; range: interior/outside characters of ranges, literal - and '
         '!; literal/setlit/altlit: characters that are special in regular '
         'expressions but ordinary in OSC, outside and inside brackets and '
-        'braces) up to the length bound x every valid address; one '
+        'braces; sep: every construct at every position of every path '
+        'over ab/ of length <= 5, so that each construct meets the '
+        'separator) up to the length bound x every valid address; one '
         'evaluation = one pattern '
         'against all addresses; non-trivial = well-formed and contains one of '
         '? * [ {. faults (E4): every single fault of the menu on each base '
@@ -2614,6 +2651,14 @@ def main(ctx):
             label += f' (+ 1/{PSLICES} slice of length {plen + 1})'
         progenum.run(ctx, MODNAME, 'pattern_work', jobs, mode='import',
                      bound=label)
+    progenum.run(ctx, MODNAME, 'pattern_work',
+                 [{'fam': 'sep', 'shard': i, 'of': 16} for i in range(16)],
+                 mode='import',
+                 bound=f'patterns/sep: {len(sep_patterns())} patterns / + '
+                       f'prefix (<=2 over ab) + one of {len(SEP_CONSTRUCTS)} '
+                       'constructs + suffix (<=2 over ab/) x all '
+                       f'{len(sep_paths())} paths /t, t over ab/ of length '
+                       '1..4 (also with empty parts)')
     ctx.extra['addresses'] = ctx.extra['pattern_families']['core']['addresses']
     ctx.close()
     t0 = _timed(ctx, 'patterns', t0)
